@@ -1223,8 +1223,14 @@ func (ex *Exec) mapGet(m *MapObj, k Value, vt types.Type) (Value, bool) {
 func (ex *Exec) mapSet(m *MapObj, k, v Value) {
 	i := ex.mapFind(m, k)
 	if i >= 0 {
+		if m.Frozen != "" && !(m.Vals[i].Kids == nil && sameValue(m.Vals[i].V, v)) {
+			ex.frozenMap(m)
+		}
 		ex.storeRaw(m.Vals[i], v)
 		return
+	}
+	if m.Frozen != "" {
+		ex.frozenMap(m)
 	}
 	l := ex.newLoc(m.VT)
 	ex.storeRaw(l, v)
@@ -1236,6 +1242,9 @@ func (ex *Exec) mapDelete(m *MapObj, k Value) {
 	i := ex.mapFind(m, k)
 	if i < 0 {
 		return
+	}
+	if m.Frozen != "" {
+		ex.frozenMap(m)
 	}
 	m.Keys = append(append([]Value(nil), m.Keys[:i]...), m.Keys[i+1:]...)
 	m.Vals = append(append([]*Loc(nil), m.Vals[:i]...), m.Vals[i+1:]...)
